@@ -59,6 +59,14 @@ type BlockInfo struct {
 	TxKinds []string
 }
 
+// HdrBadTx names the transaction-level cause of HdrBad, if any (for class labels).
+func (b *BlockInfo) HdrBadTx() string {
+	if b.Desc.Mut == "" && b.HdrBad != "" {
+		return "tx-unbalanced"
+	}
+	return ""
+}
+
 // Valid reports whether the block and all its ancestors obey every consensus rule.
 func (w *World) Valid(i int) bool {
 	for ; i > 0; i = w.Blocks[i].Parent {
@@ -616,6 +624,13 @@ func (w *World) Add(bd BlockDesc) int {
 		info.HdrBad = "timestamp below parent+interval"
 		pub, _ = p.Proposer(ps.Last, maxU64(blk.Timestamp, ps.Last.Timestamp+IntervalMs))
 		signer = KeyIndex(pub)
+	case "timestamp-future":
+		if p.MaxOffsetMs != 0 {
+			blk.Timestamp = par.Block.Timestamp + FarFutureMs + IntervalMs*uint64(abs(bd.MutArg)%7)
+			info.HdrBad = "timestamp beyond the allowed lead over the clock"
+			pub, _ = p.Proposer(ps.Last, blk.Timestamp)
+			signer = KeyIndex(pub)
+		}
 	case "timestamp-equal-parent":
 		blk.Timestamp = par.Block.Timestamp
 		info.HdrBad = "timestamp below parent+interval"
